@@ -148,7 +148,7 @@ PROPS = {
     },
     "C17": {
         "level": EXPL,
-        "plan": [{"engine": "mdnssim", "perturb": True, "perturb_mode": "1", "perturb_scale": 0.3, "thorough_scale": 3, "timeout": T_SIM}],
+        "plan": [{"engine": "mdnssim", "perturb": True, "perturb_mode": "1", "perturb_scale": 0.3, "thorough_scale": 2, "timeout": T_SIM}],
         "rule": "real MdnsManager + real (not started) Hub + recording application in a synctest bubble; resolver event histories <= 40 over 1-5 services x 1-4 addresses "
                 "(IPv4, IPv6 global, IPv6 link-local, duplicates inside one event), adds, removes in Avahi and zeroconf shape, invalid records (each mandatory key missing, txtvers 2, "
                 "non-boolean register, own SKI, nil/empty map), bursts without settling so that report goroutines pile up, GOMAXPROCS 1/4; oracle: the manager's entries equal a "
